@@ -1,4 +1,201 @@
 import Ts.Model.Packet
+import Ts.Spec.Bits
+import Ts.Lemmas.BitOps
+import Ts.Gen.Consts
+/-!
+# C12 — transport packet header fields and payload / adaptation-field split are exact
+
+For every 188-byte packet: each fixed-header accessor of the model (byte masks and shifts, as in
+`packet.rs:563-616`) equals the `uimsbf` field of ISO/IEC 13818-1 2.4.3.2 at its bit offset, and
+`adaptation_field()` / `payload()` equal the table over (adaptation_field_control, length).
+All results are `R.ok`: no accessor panics.
+-/
 namespace Ts.Props.C12
-theorem placeholder : 1 + 1 = 2 := rfl
+open Ts Ts.Packet Ts.Spec
+
+/-! ### ties to the constants regenerated from `/repo/src/packet.rs` -/
+theorem tie_packet_size : Ts.Gen.packetSize = SIZE := by decide
+theorem tie_sync_byte : Ts.Gen.syncByte = SYNC_BYTE := by decide
+theorem tie_fixed_header : Ts.Gen.fixedHeaderSize = FIXED_HEADER_SIZE := by decide
+theorem tie_af_max : Ts.Gen.afMaxWithPayload = 182 := by decide
+theorem tie_pid_max : Ts.Gen.pidMax = 0x1fff := by decide
+
+/-! ### fixed header (2.4.3.2): sync 8, TEI 1, PUSI 1, priority 1, PID 13, scrambling 2, afc 2, cc 4 -/
+
+theorem tei_exact (p : Bytes) (h : p.length = 188) : tei p = .ok (readBits p 8 1 == 1) := by
+  unfold tei; rw [byteAt_ok p 1 (by omega)]
+  have r := readBits_sub p 1 0 1 (by omega)
+  simp only [Nat.mul_one, Nat.add_zero] at r
+  rw [r]
+  have := and_80 (byteD p 1) (byteD_lt p 1)
+  simp only [R.ok_bind, R.pure_eq, this]
+
+theorem pusi_exact (p : Bytes) (h : p.length = 188) : pusi p = .ok (readBits p 9 1 == 1) := by
+  unfold pusi; rw [byteAt_ok p 1 (by omega)]
+  have r := readBits_sub p 1 1 1 (by omega)
+  simp only [Nat.mul_one] at r
+  rw [r]
+  have := and_40 (byteD p 1) (byteD_lt p 1)
+  simp only [R.ok_bind, R.pure_eq, this]
+
+theorem prio_exact (p : Bytes) (h : p.length = 188) : prio p = .ok (readBits p 10 1 == 1) := by
+  unfold prio; rw [byteAt_ok p 1 (by omega)]
+  have r := readBits_sub p 1 2 1 (by omega)
+  simp only [Nat.mul_one] at r
+  rw [r]
+  have := and_20 (byteD p 1) (byteD_lt p 1)
+  simp only [R.ok_bind, R.pure_eq, this]
+
+theorem pid_exact (p : Bytes) (h : p.length = 188) : pid p = .ok (readBits p 11 13) := by
+  unfold pid; rw [byteAt_ok p 1 (by omega), byteAt_ok p 2 (by omega)]
+  have e : readBits p 11 13 = readBits p 11 5 * 2^8 + readBits p (11 + 5) 8 := readBits_add p 11 5 8
+  have r1 := readBits_sub p 1 3 5 (by omega)
+  have r2 := readBits_byte p 2
+  simp only [Nat.mul_one] at r1
+  rw [e, r1, r2]
+  have m := and_1f (byteD p 1) (byteD_lt p 1)
+  have b2 := byteD_lt p 2
+  simp only [R.ok_bind, R.pure_eq, m, Nat.shiftLeft_eq]
+  rw [or_eq_add 8 (Nat.dvd_mul_left _ _) b2]
+  simp
+
+/-- every PID the model yields is a legal 13-bit PID (`Pid` invariant) -/
+theorem pid_le_max (p : Bytes) : readBits p 11 13 ≤ 0x1fff := by
+  have := readBits_lt p 11 13; omega
+
+theorem scrambling_exact (p : Bytes) (h : p.length = 188) :
+    byte3 p = .ok (byteD p 3) ∧ scheme (byteD p 3) = readBits p 24 2
+      ∧ isScrambled (byteD p 3) = (readBits p 24 2 != 0) := by
+  refine ⟨byteAt_ok p 3 (by omega), ?_, ?_⟩
+  · have r := readBits_sub p 3 0 2 (by omega)
+    simp only [Nat.add_zero] at r
+    rw [r]; unfold scheme
+    have := shr6 (byteD p 3) (byteD_lt p 3)
+    rw [this]
+    have := byteD_lt p 3
+    omega
+  · have r := readBits_sub p 3 0 2 (by omega)
+    simp only [Nat.add_zero] at r
+    rw [r]; unfold isScrambled
+    rw [and_c0 (byteD p 3) (byteD_lt p 3)]
+    have := byteD_lt p 3
+    have e : byteD p 3 / 2 ^ (8 - 0 - 2) % 2 ^ 2 = byteD p 3 / 64 := by omega
+    rw [e]
+
+/-- `scheme = none ↔ ¬ is_scrambled` -/
+theorem scheme_none_iff (b3 : Nat) (h : b3 < 256) : (scheme b3 = 0) ↔ (isScrambled b3 = false) := by
+  unfold scheme isScrambled
+  rw [shr6 b3 h, and_c0 b3 h]
+  simp
+
+theorem afc_exact (p : Bytes) :
+    hasAf (byteD p 3) = (readBits p 26 1 == 1) ∧ hasPayload (byteD p 3) = (readBits p 27 1 == 1) := by
+  have r1 := readBits_sub p 3 2 1 (by omega)
+  have r2 := readBits_sub p 3 3 1 (by omega)
+  rw [r1, r2]
+  unfold hasAf hasPayload
+  rw [and_20 (byteD p 3) (byteD_lt p 3), and_10 (byteD p 3) (byteD_lt p 3)]
+  constructor <;> congr 1
+
+theorem cc_exact (p : Bytes) (h : p.length = 188) : cc p = .ok (readBits p 28 4) := by
+  unfold cc; rw [byteAt_ok p 3 (by omega)]
+  have r := readBits_sub p 3 4 4 (by omega)
+  rw [r]
+  have m := and_0f (byteD p 3) (byteD_lt p 3)
+  have : byteD p 3 % 16 < 16 := Nat.mod_lt _ (by decide)
+  simp only [R.ok_bind, R.pure_eq, m, assertR]
+  have hlt : (byteD p 3 % 16 < 0b10000) = True := by simp; omega
+  simp [hlt]
+
+theorem cc_lt_16 (p : Bytes) : readBits p 28 4 < 16 := readBits_lt p 28 4
+
+/-! ### adaptation field / payload split -/
+
+/-- the split implied by `adaptation_field_control` (`haf`,`hp`) and `adaptation_field_length` `L` -/
+def splitSpec (haf hp : Bool) (L : Nat) : Option (Nat × Nat) × Option (Nat × Nat) :=
+  match haf, hp with
+  | false, false => (none, none)
+  | false, true => (none, some (4, 184))
+  | true, false => (if L = 183 then some (5, 183) else none, none)
+  | true, true => (if 1 ≤ L ∧ L ≤ 182 then some (5, L) else none,
+                   if L ≤ 182 then some (5 + L, 183 - L) else none)
+
+theorem mkAf_ok (p : Bytes) (h : p.length = 188) (L : Nat) (h1 : 1 ≤ L) (h2 : L ≤ 183) :
+    mkAf p L = .ok (5, L) := by
+  unfold mkAf ADAPTATION_FIELD_OFFSET FIXED_HEADER_SIZE
+  rw [sliceR_ok p 5 L (by omega)]
+  have hne : ¬ (L = 0 ∨ p.length ≤ 5) := by omega
+  simp [assertR, hne]
+
+theorem af_exact (p : Bytes) (h : p.length = 188) :
+    afRange p = .ok (splitSpec (hasAf (byteD p 3)) (hasPayload (byteD p 3)) (byteD p 4)).1 := by
+  unfold afRange byte3 afLen
+  rw [byteAt_ok p 3 (by omega)]
+  simp only [R.ok_bind]
+  cases haf : hasAf (byteD p 3) <;> cases hp : hasPayload (byteD p 3) <;> simp only [splitSpec, if_true, if_false, Bool.false_eq_true, R.pure_eq]
+  · rw [byteAt_ok p 4 (by omega)]
+    simp only [R.ok_bind, SIZE, ADAPTATION_FIELD_OFFSET, FIXED_HEADER_SIZE]
+    by_cases hl : byteD p 4 = 183
+    · simp [hl, mkAf_ok p h 183 (by omega) (by omega)]
+    · have : (byteD p 4 != 188 - (4 + 1)) = true := by simp; omega
+      simp [this, hl]
+  · rw [byteAt_ok p 4 (by omega)]
+    simp only [R.ok_bind]
+    by_cases h1 : byteD p 4 > 182
+    · have : ¬ (1 ≤ byteD p 4 ∧ byteD p 4 ≤ 182) := by omega
+      simp [h1, this]
+    · by_cases h0 : byteD p 4 = 0
+      · simp [h0]
+      · have hh : (1 ≤ byteD p 4 ∧ byteD p 4 ≤ 182) := by omega
+        have hb : (byteD p 4 == 0) = false := by simp [h0]
+        simp only [h1, if_false, hb, Bool.false_eq_true, hh, and_self, if_true]
+        rw [mkAf_ok p h _ (by omega) (by omega)]
+        rfl
+
+theorem payload_exact (p : Bytes) (h : p.length = 188) :
+    payloadRange p = .ok (splitSpec (hasAf (byteD p 3)) (hasPayload (byteD p 3)) (byteD p 4)).2 := by
+  unfold payloadRange mkPayload contentOffset byte3 afLen
+  rw [byteAt_ok p 3 (by omega)]
+  simp only [R.ok_bind]
+  cases haf : hasAf (byteD p 3) <;> cases hp : hasPayload (byteD p 3) <;> simp only [splitSpec, if_true, if_false, Bool.false_eq_true, R.pure_eq, R.ok_bind]
+  · simp [FIXED_HEADER_SIZE, h, sliceFrom_ok p 4 (by omega)]
+  · rw [byteAt_ok p 4 (by omega)]
+    simp only [R.ok_bind, ADAPTATION_FIELD_OFFSET, FIXED_HEADER_SIZE, h]
+    by_cases h1 : byteD p 4 ≤ 182
+    · have e1 : (4 + 1 + byteD p 4 == 188) = false := by simp; omega
+      have e2 : ¬ (4 + 1 + byteD p 4 > 188) := by omega
+      simp only [e1, Bool.false_eq_true, if_false, e2, h1, if_true]
+      rw [sliceFrom_ok p _ (by omega)]
+      simp only [R.ok_bind]
+      congr 3 <;> omega
+    · by_cases h2 : byteD p 4 = 183
+      · simp [h2]
+      · have e1 : (4 + 1 + byteD p 4 == 188) = false := by simp; omega
+        have e2 : (4 + 1 + byteD p 4 > 188) := by omega
+        simp [e1, e2, h1]
+
+/-- soundness of the split: ranges lie inside the packet, are disjoint, and a payload is never
+empty and ends at the packet's last byte -/
+theorem split_sound (haf hp : Bool) (L : Nat) :
+    let s := splitSpec haf hp L
+    (∀ a, s.1 = some a → 5 ≤ a.1 ∧ 1 ≤ a.2 ∧ a.1 + a.2 ≤ 188) ∧
+    (∀ b, s.2 = some b → 1 ≤ b.2 ∧ b.1 + b.2 = 188 ∧ 4 ≤ b.1) ∧
+    (∀ a b, s.1 = some a → s.2 = some b → a.1 + a.2 ≤ b.1) := by
+  cases haf <;> cases hp <;> simp only [splitSpec]
+  · simp
+  · simp
+  · refine ⟨?_, ?_, ?_⟩
+    · intro a; split <;> simp <;> intro h <;> subst h <;> omega
+    · simp
+    · simp
+  · refine ⟨?_, ?_, ?_⟩
+    · intro a; split <;> simp; rename_i h; intro e; subst e; simp; omega
+    · intro b; split <;> simp; rename_i h; intro e; subst e; simp; omega
+    · intro a b; split <;> split <;> simp; rename_i h1 h2; intro e1 e2; subst e1 e2; simp
+
+/-! ### non-vacuity -/
+example : (List.replicate 188 (0x47 : UInt8)).length = 188 := List.length_replicate ..
+example : splitSpec true true 7 = (some (5, 7), some (12, 176)) := by decide
+example : splitSpec true false 183 = (some (5, 183), none) := by decide
+
 end Ts.Props.C12
